@@ -15,7 +15,7 @@ TEXT_ATOMS = ["a", "Z", "0", "xy", " ", "  ", "%", "%41", "%zz", "%2", "+", "&",
 QUERY_ONLY = ["?", "#", "//"]
 UNSAFE = ["\t", "\n", "\r", "\r\n"]
 FORM_ATOMS = ["a", "Z", "0", "xy", " ", "%", "+", ";", ":", ",", "!", "é", "中文", "\U0001F600", "naïve", "-", "_", ".", "&", "="]
-HNAMES = [b"X-A", b"x-lower", b"Accept", b"User-Agent", b"Connection", b"Cookie", b"Cookie", b"X_Under", b"X-1", b"ETag", b"If-None-Match", b"Host", b"accept-encoding",
+HNAMES = [b"Hosts", b"X-Host", b"Content-Lengthy", b"Accept-Encodings", b"X-A-B", b"Content-Type-X", b"X-A", b"x-lower", b"Accept", b"User-Agent", b"Connection", b"Cookie", b"Cookie", b"X_Under", b"X-1", b"ETag", b"If-None-Match", b"Host", b"accept-encoding",
           b"Content-Type", b"X.Dot", b"x-a", b"AUTHORIZATION"]
 HVALS = [b"\xc3\xa9tude", b"\xc3\xbc", b"\xe2\x82\xac 5", b"\xc2\xa0", b"1", b"", b" ", b" lead", b"trail ", b"a: b", b"text/html, application/json;q=0.9", b"caf\xe9", b"\xff\x00\x80", b"keep-alive", b"a\tb", b"x" * 200,
          b"Bearer abc.def", b"k=v; k2=v2", b"identity", b"other.example:81"]
@@ -130,6 +130,14 @@ class C14(core.Check):
                      (b"POST", u("/ignored"), [], [(b"X-A", b"1")], 0, b"body", False, 2),
                      (b"GET", u("/ignored-too"), [(u("z"), u("2"))], [], 0, b"", False, 2)], ([], 1)),
             ("seq", [(b"GET", u("/p q?x=1#f"), [], [], 0, b"", False, True), (b"GET", u("/zz"), [], [], 0, b"", False, 2)], ([60], 2)),
+            # exactly at / one beyond the server's limits: 100 distinct header names on the wire (98 + Host + Accept-Encoding), and 101
+            one(b"GET", u("/lim"), [], [(b"X-H%d" % i, b"v") for i in range(98)], 0, b"", False),
+            one(b"GET", u("/lim"), [], [(b"X-H%d" % i, b"v") for i in range(99)], 0, b"", False),
+            ("seq", [(b"POST", u("/lim"), [], [(b"X-H%d" % i, b"v") for i in range(97)], 0, b"b", False, True), (b"GET", u("/after"), [], [], 0, b"", False, True)], ([], 1)),
+            # a header line of exactly MAX_LINE_SIZE bytes ("X-L: " is 5 bytes), and one byte more
+            one(b"GET", u("/len"), [], [(b"X-L", b"v" * (65536 - 5))], 0, b"", False),
+            one(b"GET", u("/len"), [], [(b"X-L", b"v" * (65536 - 4))], 0, b"", False),
+            one(b"GET", u("/" + "p" * (65536 - len("GET / HTTP/1.1"))), [], [], 0, b"", False),
             ("quote", u("a b/é%+~")), ("unquote", b"%41%zz%%4a%4"), ("unquote_plus", b"a+b%2Bc%"), ("parse_qsl", b"a=1&&b&=c&d=%26+x&=&&"), ("parse_qsl", b""),
         ]
 
@@ -252,7 +260,7 @@ class C14(core.Check):
             c = rng.random()
             bval = b"" if c < 0.3 else (rng.choice([b"\r\n\r\n", b"GET / HTTP/1.1\r\n\r\n", b"0\r\n\r\n", b"a=b&c=d", u("caf\u00e9 \u4e2d")]) if c < 0.45
                                        else bytes(rng.randrange(256) for _ in range(rng.choice([1, 2, 10, 100, 300]))))
-            explicit = rng.random() < 0.4 and method.upper() != b"GET"
+            explicit = rng.choice([True, True, 2]) if (rng.random() < 0.4 and method.upper() != b"GET") else False
         elif b < 0.72:
             bkind = 1
             data = self._json(rng)
@@ -290,6 +298,14 @@ class C14(core.Check):
                 i = rng.randrange(1, m)
                 sp = specs[i]
                 specs[i] = (rng.choice([b"GET", b"POST", b"DELETE"]), sp[1], sp[2], sp[3][:rng.choice([0, 0, 1])], 0, b"", False, sp[7])
+            if m > 1 and rng.random() < 0.3:
+                # consecutive requests with EQUAL query dicts (the adapter then passes one and the same dict object), the earlier one with a query on its path
+                i = rng.randrange(0, m - 1)
+                a, b = specs[i], specs[i + 1]
+                qa = a[2] or [(b"shared", b"1")]
+                pa = a[1] if b"?" in a[1] else _pathpart(a[1]) + b"?" + self._pathquery(rng).encode("utf-8")
+                specs[i] = (a[0], pa, qa) + tuple(a[3:])
+                specs[i + 1] = (b[0], b[1], list(qa)) + tuple(b[3:])
             cuts = sorted(rng.randrange(0, 400 * m) for _ in range(rng.choice([0, 0, 1, 3, 6])))
             yield ("seq", specs, (cuts, rng.choice([1, 1, 2, 3])))
 
@@ -300,7 +316,7 @@ class C14(core.Check):
         for method, path, qargs, headers, bkind, bval, explicit, fresh in effective(case[1]):
             hs = list(headers)
             if bkind == 0 and explicit:
-                hs.append((b"Content-Length", str(len(bval)).encode()))
+                hs.append((b"Content-Length", (b"00" if explicit == 2 else b"") + str(len(bval)).encode()))
             raw = bval if bkind in (0, 1) else b""
             form = bval if bkind == 2 else []
             out.append((method, path, [(k, v) for k, v in qargs], [(n, v) for n, v in hs], bkind, raw, [(k, v) for k, v in form], HOST, hf.C14_BOUNDARY))
@@ -385,6 +401,20 @@ class C14(core.Check):
             return False
         return True
 
+    def within_limits(self, spec, built):
+        """the server's own limits (httping.MAX_HEADERS distinct header names, MAX_LINE_SIZE per line) — a request beyond them is refused by design"""
+        from hio.core.http import httping
+        method, path, qargs, headers, bkind, bval, explicit, fresh = spec
+        names = {n.lower() for n, _ in headers} | {b"host", b"accept-encoding"}
+        if method.upper() != b"GET" and (bkind in (1, 2) or bval):
+            names |= {b"content-length"} | ({b"content-type"} if bkind in (1, 2) else set())
+        if bkind == 0 and explicit:
+            names |= {b"content-length"}
+        if len(names) > httping.MAX_HEADERS:
+            return False
+        head = built.split(b"\r\n\r\n", 1)[0] if isinstance(built, bytes) else b""
+        return all(len(line) <= httping.MAX_LINE_SIZE for line in head.split(b"\r\n"))
+
     def _expect_query(self, spec):
         method, path, qargs, headers, bkind, bval, explicit, fresh = spec
         exp = dict((k.decode("utf-8"), v.decode("utf-8")) for k, v in qargs)
@@ -420,7 +450,7 @@ class C14(core.Check):
         hs = list(headers)
         multipart = self._multipart(spec)
         if bkind == 0 and explicit:
-            hs.append((b"Content-Length", str(len(bval)).encode()))
+            hs.append((b"Content-Length", (b"00" if explicit == 2 else b"") + str(len(bval)).encode()))
         envkeys = {}
         for n, v in hs:
             envkeys.setdefault("HTTP_" + n.decode("ascii").upper().replace("-", "_"), set()).add(n.lower())
@@ -496,7 +526,7 @@ class C14(core.Check):
         builts, views, (_, extras, leftover, closed) = obs
         out = []
         for i, spec in enumerate(specs):
-            if not self.wf(spec):
+            if not self.wf(spec) or not self.within_limits(spec, builts[i]):
                 return out
             if not isinstance(builts[i], bytes):
                 out.append((i, "build-raised"))
@@ -510,6 +540,12 @@ class C14(core.Check):
         return out
 
     def oracle(self, case, obs):
+        try:
+            return self._oracle(case, obs)
+        except (IndexError, KeyError, TypeError, ValueError, AttributeError, UnicodeError) as ex:
+            return ["observation-not-accountable:" + type(ex).__name__]
+
+    def _oracle(self, case, obs):
         import urllib.parse as up
         if case[0] != "seq":
             kind, b = case
